@@ -207,6 +207,8 @@ func rulesC05(c *Ctx) {
 	R := c.R
 	R.Rule("R1", "melt op / poll: spend + PAID only behind success facts; release + UNPAID only behind definitive-failure facts after a Failed pay; completeness on both edges; constants and preimage written", 30)
 	R.Rule("R2", "Lightning answer status is read only where the paired error is nil or after the Failed override", 4)
+	R.Rule("R7", "the lock on a melt's inputs is exclusive: the pending-table insert is a plain INSERT in one transaction (a second melt cannot take over or share the lock; shared with C01.R6)", 4)
+	c.checkAtomicMultiRow("R7", roleLock)
 	R.Rule("R6", "the melt-quote poll asks the backend whenever the stored state is PENDING (once the backend knows the outcome the next poll adopts it)", 1)
 	c.ruleMeltPollCompleteness("R6")
 	R.Rule("R3", "backends: a PaymentStatus with zero (Succeeded) status is returned only with a non-nil error", 12)
